@@ -84,7 +84,34 @@ def rules(model: Model, tier: str) -> List[RuleResult]:
         _fc = _ac.get_fncls(model, _cn)
         _ac.ac11_wrapper_returns(model, _fc, _R11)
         _ac.ac11_forward_provenance(model, _fc, _R11)
-    return [W, W2, P, RC, RZ, RB, SH, TC, _R11]
+    # table / kind agreement: a dispatch table offers only algorithms of its own kind.  The three families solve different problems
+    # (f(y) = 0, f(y) = y, min f): a fixed-point iteration offered as a root finder returns - silently, its own stopping test met -
+    # a point where f(y) = y instead of f(y) = 0.
+    KT = RuleResult(PROP, "C03-K", "table / kind agreement: every entry of a method table is an algorithm of the table's own family", min_instances=7)
+    kind_of_module = {ROOTSOLVER: "rootfinder", EQUIL: "equilibrium", "xitorch/_impls/optimize/minimizer.py": "minimizer"}
+    for key, fi_ in sorted(ents.items()):
+        label, name = key.split("/", 1)
+        k_ = kind_of_module.get(fi_.module.relpath)
+        if not label:
+            continue
+        if k_ == label:
+            KT.ok(ROOTFINDER, "%s method %r is %s (%s)" % (label, name, fi_.fq, k_))
+        elif k_ is None:
+            KT.undecided(fi_, fi_.node, "cannot identify the family of %s (offered as %s method %r): its module is not in the table of solver modules" % (fi_.fq, label, name))
+        else:
+            KT.bad(ROOTFINDER + "::_METHODS", fwd_table_node(model, name) or model.func(ROOTFINDER, "_RootFinder.forward").node,
+                   "the %s table offers %r = %s, which is %s algorithm: it meets its own stopping test at a point that does not solve the %s problem"
+                   % (label, name, fi_.fq, ("a " + k_) if k_ else "not a known", label), file=ROOTFINDER)
+    return [W, W2, P, RC, RZ, RB, SH, TC, KT, _R11]
+
+
+def fwd_table_node(model: Model, name: str):
+    for st in model.module(ROOTFINDER).tree.body:
+        if isinstance(st, ast.Assign) and isinstance(st.value, ast.Dict):
+            for k in st.value.keys:
+                if isinstance(k, ast.Constant) and k.value == name:
+                    return k
+    return None
 
 
 def _check_shape(f: FuncInfo, SH: RuleResult):
